@@ -105,6 +105,8 @@ class BacktrackSolver(Solver):
         :param stack_max_height: the maximal choice point stack height
         :param log_level: the log level as a string
         """
+        if not 1 <= stack_max_height <= 256:
+            raise ValueError("stack_max_height must be between 1 and 256 (the stack pointer is an 8-bit unsigned integer)")
         super().__init__(problem, log_level)
         decision_domains = list(range(problem.shr_domain_nb)) if decision_domains is None else decision_domains
         logger.info(f"BacktrackSolver uses decision domains {decision_domains}")
